@@ -138,9 +138,23 @@ fn bump(v: u8) -> u8 { ((v & 0x0F) + 1) % 3 }
 fn same(a: u8, b: u8) -> bool { a & 0x0F == b & 0x0F }
 
 /// Read-only and explicitly non-reacting world-level accessors: they agree with each other and trigger nothing.
-fn world_reads<R: RVal>(w: &mut World)
+/// A read-only system parameter: `Deref` and Bevy's `DetectChanges` view of the resource (reads, never triggers).
+fn res_ro_sys<R: RVal>(r: ReactRes<R>) -> u8
+{
+    use bevy::ecs::change_detection::DetectChanges;
+    let _ = (r.is_added(), r.is_changed(), r.last_changed());
+    let via_deref: &R = &*r;
+    via_deref.v()
+}
+
+fn world_reads<R: RVal + Default>(w: &mut World)
 {
     let v = w.react_resource::<R>().v();
+    // initialising a resource that exists changes nothing (and triggers nothing)
+    w.init_react_resource::<R>();
+    w.commands().init_react_resource::<R>();
+    w.flush();
+    assert!(w.syscall((), res_ro_sys::<R>) == v, "ReactRes (Deref) disagrees with the world-level accessor");
     let ok = w.contains_react_resource::<R>()
         && w.get_react_resource::<R>().map(|r| r.v()) == Some(v)
         && w.get_react_resource_noreact::<R>().map(|r| r.v()) == Some(v)
@@ -163,6 +177,9 @@ fn world_level(c: &mut Commands, call: Call) -> bool
         Call::TriggerRes(_) => c.react().trigger_resource_mutation::<RB>(),
         Call::WorldTriggerRes(0) => c.queue(|w: &mut World| w.trigger_resource_mutation::<RA>()),
         Call::WorldTriggerRes(_) => c.queue(|w: &mut World| w.trigger_resource_mutation::<RB>()),
+        // tag bit 5 set: the value is replaced through `Commands::insert_react_resource` (stores, triggers nothing)
+        Call::WorldResNoreact(0, v) if v & 0x20 != 0 => c.insert_react_resource(RA(v)),
+        Call::WorldResNoreact(_, v) if v & 0x20 != 0 => c.insert_react_resource(RB(v)),
         Call::WorldResNoreact(0, v) => c.queue(move |w: &mut World| w.react_resource_mut_noreact::<RA>().set(v)),
         Call::WorldResNoreact(_, v) => c.queue(move |w: &mut World| w.react_resource_mut_noreact::<RB>().set(v)),
         Call::Despawn(e) => { let e = pool_entity(e); c.queue(move |w: &mut World| { if let Ok(em) = w.get_entity_mut(e) { em.despawn(); } }); }
@@ -202,7 +219,11 @@ fn direct_one<C: Val>(i: usize, call: Call, c: &mut Commands, q: &mut Query<&mut
 {
     match call
     {
-        Call::Get(e, _) => log_ret(i, Ret::Read(q.get(pool_entity(e)).ok().map(|r| r.get().v()))),
+        Call::Get(e, _) => log_ret(i, Ret::Read(q.get(pool_entity(e)).ok().map(|r| {
+            let via_deref: &C = &**r;
+            assert!(via_deref.v() == r.get().v(), "React::deref disagrees with React::get");
+            r.get().v()
+        }))),
         Call::GetMut(e, _) =>
         {
             if let Ok(mut r) = q.get_mut(pool_entity(e)) { let x = r.get_mut(c); let n = bump(x.v()); x.set(n); }
@@ -309,7 +330,12 @@ fn res_one<R: RVal>(i: usize, call: Call, c: &mut Commands, r: &mut ReactResMut<
         Call::ResGetMut(_) => { let x = r.get_mut(c); let nv = bump(x.v()); x.set(nv); }
         Call::ResGetNoreact(_, v) => { r.get_noreact().set(v); }
         Call::ResSetIfNeq(_, v) => log_ret(i, Ret::Set(r.set_if_neq(c, R::new(v)).map(|o| o.v()))),
-        Call::ResRead(_) => log_ret(i, Ret::Read(Some(r.v()))),
+        Call::ResRead(_) =>
+        {
+            use bevy::ecs::change_detection::DetectChanges;
+            let _ = (r.is_added(), r.is_changed(), r.last_changed());
+            log_ret(i, Ret::Read(Some(r.v())))
+        }
         _ => {}
     }
 }
